@@ -8,6 +8,7 @@ import (
 	"path/filepath"
 	"sort"
 	"time"
+	"verif/harness/internal/c11alt"
 
 	"github.com/biogo/biogo/morass"
 
@@ -35,15 +36,20 @@ type c11Cycle struct {
 	// Faulted: the sorter's directory is missing during this cycle, so its spills fail; the directory is put back and
 	// Clear called before the next cycle, which is held to the property like any other ("whatever earlier cycles did").
 	Faulted bool `json:"directory_missing_during_this_cycle,omitempty"`
+	// Abandoned: the values are pushed and the cycle is given up with Clear, without Finalise (the background writers of a
+	// concurrent sorter may still be at work when Clear is called); the cycles after it are judged as always.
+	Abandoned bool `json:"abandoned_with_clear_before_finalise,omitempty"`
 }
 
 type c11Hist struct {
-	Chunk      int        `json:"chunk_size"`
-	Concurrent bool       `json:"concurrent"`
-	Struct     bool       `json:"struct_elements"`
-	AutoClear  bool       `json:"auto_clear"`
-	AutoClean  bool       `json:"auto_clean"`
-	Cycles     []c11Cycle `json:"cycles"`
+	Chunk      int  `json:"chunk_size"`
+	Concurrent bool `json:"concurrent"`
+	Struct     bool `json:"struct_elements"`
+	// AltStruct: the struct elements are of a type called c11S too, but declared in another package
+	AltStruct bool       `json:"struct_type_of_another_package_with_the_same_name,omitempty"`
+	AutoClear bool       `json:"auto_clear"`
+	AutoClean bool       `json:"auto_clean"`
+	Cycles    []c11Cycle `json:"cycles"`
 }
 
 func (h c11Hist) word() string {
@@ -59,6 +65,9 @@ func (h c11Hist) word() string {
 		}
 		if c.Faulted {
 			w += "X;"
+		}
+		if c.Abandoned {
+			w += "A;"
 		}
 	}
 	return w
@@ -89,8 +98,14 @@ func c11GenHist(rng *rand.Rand, maxCycles int) c11Hist {
 		}
 		h.Cycles = append(h.Cycles, c11Cycle{Keys: keys, Drain: []string{"none", "one", "half", "all", "all", "all+extra"}[rng.Intn(6)], Twice: rng.Intn(8) == 0})
 	}
+	h.AltStruct = h.Struct && rng.Intn(3) == 0
 	// AutoClean: the first cycle drained to io.EOF is the sorter's last (the history stops there)
 	h.AutoClean = rng.Intn(6) == 0
+	for i := 0; i+1 < len(h.Cycles); i++ {
+		if rng.Intn(8) == 0 {
+			h.Cycles[i].Abandoned = true
+		}
+	}
 	if !h.AutoClean && !big {
 		for i := 0; i+1 < len(h.Cycles); i++ {
 			if len(h.Cycles[i].Keys) >= h.Chunk && rng.Intn(8) == 0 {
@@ -140,14 +155,16 @@ func c11Enumerated(idx int, rng *rand.Rand) (c11Hist, bool) {
 const c11EnumTotal = (10 + 100 + 1000) * 8
 
 type c11Result struct {
-	class, what string
-	spills      int
-	memCycles   int
-	pulls       int
-	faulted     int    // cycles run with the directory missing
-	faultedSeen int    // ... in which Push or Finalise reported an error
-	dir         string // the sorter's scratch parent directory (caller removes it)
-	residue     []string
+	class, what  string
+	spills       int
+	memCycles    int
+	pulls        int
+	abandoned    int    // cycles given up with Clear before Finalise
+	abandonedDir bool   // ... in a history whose directory is inspected (C13)
+	faulted      int    // cycles run with the directory missing
+	faultedSeen  int    // ... in which Push or Finalise reported an error
+	dir          string // the sorter's scratch parent directory (caller removes it)
+	residue      []string
 }
 
 // c11RunHist executes a history on a real Morass, checking the model after every call.
@@ -156,6 +173,9 @@ func c11RunHist(r *obs.Run, h c11Hist, scratch string, checkResidue bool) (res c
 	var proto interface{} = c11Int(0)
 	if h.Struct {
 		proto = c11S{}
+		if h.AltStruct {
+			proto = c11alt.Proto()
+		}
 	}
 	m, err := morass.New(proto, "run", scratch, h.Chunk, h.Concurrent)
 	if err != nil {
@@ -185,6 +205,31 @@ func c11RunHist(r *obs.Run, h c11Hist, scratch string, checkResidue bool) (res c
 		when := func(s string) string {
 			return fmt.Sprintf("cycle %d (%d pushes, chunk %d): %s", ci, len(cyc.Keys), h.Chunk, s)
 		}
+		if cyc.Abandoned && !cyc.Faulted {
+			for i, k := range cyc.Keys {
+				var e morass.LessInterface = c11Int(k)
+				if h.Struct {
+					e = c11S{K: k, P: -2}
+					if h.AltStruct {
+						e = c11alt.New(k, -2)
+					}
+				}
+				if err := m.Push(e); err != nil {
+					return fail("push-error", when(fmt.Sprintf("push %d returned %v", i, err)))
+				}
+			}
+			if err := m.Clear(); err != nil {
+				return fail("clear-error", when("Clear before Finalise returned "+err.Error()))
+			}
+			if m.Len() != 0 || m.Pos() != 0 {
+				return fail("pos-len", when(fmt.Sprintf("after Clear Pos=%d Len=%d", m.Pos(), m.Len())))
+			}
+			if checkResidue && sorterDir != "" {
+				res.abandonedDir = true
+			}
+			res.abandoned++
+			continue
+		}
 		if cyc.Faulted && sorterDir != "" {
 			// a cycle that goes wrong: its errors are C13's business, the cycles after it are this property's
 			os.RemoveAll(sorterDir)
@@ -193,6 +238,9 @@ func c11RunHist(r *obs.Run, h c11Hist, scratch string, checkResidue bool) (res c
 				var e morass.LessInterface = c11Int(k)
 				if h.Struct {
 					e = c11S{K: k, P: -1}
+					if h.AltStruct {
+						e = c11alt.New(k, -1)
+					}
 				}
 				if err := m.Push(e); err != nil {
 					sawErr = true
@@ -224,6 +272,9 @@ func c11RunHist(r *obs.Run, h c11Hist, scratch string, checkResidue bool) (res c
 			payload++
 			if h.Struct {
 				e = c11S{K: k, P: payload}
+				if h.AltStruct {
+					e = c11alt.New(k, payload)
+				}
 			}
 			pushed = append(pushed, kv{k, payload})
 			if m.Pos() != int64(i) || m.Len() != int64(i) {
@@ -273,6 +324,12 @@ func c11RunHist(r *obs.Run, h c11Hist, scratch string, checkResidue bool) (res c
 		last := 0
 		eof := false
 		pull := func() (kv, error) {
+			if h.Struct && h.AltStruct {
+				v := c11alt.Ptr()
+				err := m.Pull(v)
+				k, p := c11alt.Fields(v)
+				return kv{k, p}, err
+			}
 			if h.Struct {
 				var v c11S
 				err := m.Pull(&v)
@@ -424,6 +481,7 @@ func c11Case(r *obs.Run, i int) {
 	}()
 	r.Count("histories", 1)
 	r.Count("cycles_spilled", int64(res.spills))
+	r.Count("earlier_cycles_abandoned_before_finalise", int64(res.abandoned))
 	r.Count("earlier_cycles_with_failed_spills", int64(res.faulted))
 	r.Count("earlier_cycles_with_failed_spills_that_reported_an_error", int64(res.faultedSeen))
 	r.Count("cycles_in_memory", int64(res.memCycles))
